@@ -112,6 +112,10 @@ static void one_case(const std::string& cid, Toks& t) {
     if (op == "block") {
         int N = t.next_int(), M = t.next_int();
         run_partition(cid, new Partition(N, M, g_topo));
+    } else if (op == "bblock") {
+        // block-aligned partition: Partition(N, M, brows, bcols) hands out whole blocks of brows rows / bcols columns
+        int N = t.next_int(), M = t.next_int(), br = t.next_int(), bc = t.next_int();
+        run_partition(cid, new Partition(N, M, br, bc, g_topo));
     } else if (op == "explicit") {
         int N = t.next_int(), M = t.next_int(), P = t.next_int();
         std::vector<int> a = t.ints(4 * P);
